@@ -49,15 +49,7 @@ func (c *deleteCleaner) Clean(segments []*segment) ([]*segment, error) {
 	c.Logger.Debugf("Cleaning log %s based on retention policy %+v", c.Name, c.Retention)
 	defer c.Logger.Debugf("Finished cleaning log %s", c.Name)
 
-	// Limit by age first.
-	if c.Retention.Age > 0 {
-		segments, err = c.applyAgeLimit(segments)
-		if err != nil {
-			return nil, errors.Wrap(err, "failed to apply age retention limit")
-		}
-	}
-
-	// Next limit by number of messages.
+	// Limit by number of messages first.
 	if c.Retention.Messages > 0 {
 		segments, err = c.applyMessagesLimit(segments)
 		if err != nil {
@@ -65,11 +57,25 @@ func (c *deleteCleaner) Clean(segments []*segment) ([]*segment, error) {
 		}
 	}
 
-	// Lastly limit by number of bytes.
+	// Next limit by number of bytes.
 	if c.Retention.Bytes > 0 {
 		segments, err = c.applyBytesLimit(segments)
 		if err != nil {
 			return nil, errors.Wrap(err, "failed to apply bytes retention limit")
+		}
+	}
+
+	// Lastly limit by age. This must come after the message and byte limits:
+	// segment timestamps are not necessarily monotonic (they are assigned by
+	// whichever broker was the leader), so removing segments for the other
+	// limits can expose an expired segment at the head of the log. Applying
+	// the age limit last removes it in the same pass instead of leaving it
+	// until the next cleaner run. The message and byte limits still hold
+	// afterwards since removing more segments only shrinks the log.
+	if c.Retention.Age > 0 {
+		segments, err = c.applyAgeLimit(segments)
+		if err != nil {
+			return nil, errors.Wrap(err, "failed to apply age retention limit")
 		}
 	}
 
